@@ -1515,6 +1515,24 @@ fn gen_c20(ch: &mut Choices) -> Plan {
                 pieces += 1;
             }
             last_ms = t;
+            if finish && off >= bytes.len() && ch.chance(1, 2) {
+                // a second frame behind the first: its first piece is larger than the rate (a live peer), the
+                // rest follows 2.5 s later - the state of the first frame's timer must not leak into it
+                // (a topic of 280 bytes: no part of the frame can be decoded before nearly all of it has arrived,
+                // so every delivered byte but the fixed header counts as undecoded)
+                let mut p2 = mk_publish(ver, ch, 1, 0, None, 5);
+                p2.topic = format!("t/1/{}", "y".repeat(276));
+                p2.props.clear();
+                let pkt2 = Pkt::Publish(p2);
+                let b2 = rc::encode(ver, &pkt2);
+                let r = *ch.pick(&[105usize, 140, 200]);
+                t += *ch.pick(&[500u64, 1500]);
+                plan.peer.script.push(PeerStep { pre: Pre::AtMs(t), bytes: b2[..r].to_vec(), pkt: None, corrupt: None, then_close: None });
+                t += 2500;
+                plan.peer.script.push(PeerStep { pre: Pre::AtMs(t), bytes: b2[r..].to_vec(), pkt: Some(pkt2), corrupt: None, then_close: None });
+                last_ms = t;
+                plan.tags.push("two-frames".into());
+            }
             plan.horizon_ms = last_ms + 9_000;
         }
         2 => {
